@@ -24,7 +24,38 @@ func isHeaderLength(v ssa.Value, hp *ssa.Parameter) bool {
 		break
 	}
 	fl, base := kit.LoadedField(v)
-	return fl != nil && fl.Name() == "Length" && fl.Pkg() != nil && fl.Pkg().Path() == load.WirePkg && kit.Strip(base) == ssa.Value(hp)
+	if fl != nil && fl.Name() == "Length" && fl.Pkg() != nil && fl.Pkg().Path() == load.WirePkg && kit.Strip(base) == ssa.Value(hp) {
+		return true
+	}
+	// the very value that the function stores into header.Length (its only store to that field):
+	// `header.Length = length; defer DiscardInputWithCounter(r, length, counter)`
+	if hp == nil || hp.Parent() == nil {
+		return false
+	}
+	n, same := 0, false
+	kit.AllInstrs(hp.Parent(), func(in ssa.Instruction) {
+		st, ok := in.(*ssa.Store)
+		if !ok {
+			return
+		}
+		f2, b2 := kit.FieldOfAddr(st.Addr)
+		if f2 == nil || f2.Name() != "Length" || f2.Pkg() == nil || f2.Pkg().Path() != load.WirePkg || kit.Strip(b2) != ssa.Value(hp) {
+			return
+		}
+		n++
+		sv := st.Val
+		for {
+			if c, ok := sv.(*ssa.Convert); ok {
+				sv = c.X
+				continue
+			}
+			break
+		}
+		if kit.Strip(sv) == kit.Strip(v) {
+			same = true
+		}
+	})
+	return n == 1 && same
 }
 
 // handlerParams returns (header, reader) parameters of a MessageHandlerFunction-shaped function.
